@@ -56,7 +56,7 @@ def body(case, rec):
         rsmi = f"{r}>>{p}"
         assert cg.rxn_key(rsmi) == cg.rxn_key(rsmi0)
     # the substrate string follows the writing of the (rewritten) reaction: atom order and fragment order are kept
-    rewritten = bool(case.get("frag_order")) or any((case.get("spec") or {}).get(k) for k in ("atoms", "frags"))
+    rewritten = bool(case.get("frag_order")) or bool(case.get("as_written")) or any((case.get("spec") or {}).get(k) for k in ("atoms", "frags"))
     substrate = cg.unmapped(p if invert else r, canonical=not rewritten)
     tpl = rx.template_graph(rsmi, kind)
     reactor = rx.make_reactor(substrate, tpl, invert, strategy, style)
@@ -123,6 +123,13 @@ def enum_corpus(tier):
             for invert in (False, True):
                 for s in strategies:
                     yield dict(rxn=i, spec={}, kind=kind, invert=invert, strategy=s)
+    # the same sweep with the substrate spelled as the corpus writes it (atom and fragment order of the file, not
+    # RDKit's canonical order) and the component-aware fallback strategy
+    for i in eligible():
+        for kind in (("rc",) if tier == "quick" else ("rc", "its")):
+            for invert in (False, True):
+                for s in (("bt",) if tier == "quick" else ("bt", "comp", "all")):
+                    yield dict(rxn=i, spec={}, kind=kind, invert=invert, strategy=s, as_written=True)
 
 
 def enum_fragment_orders(tier):
@@ -135,7 +142,7 @@ def enum_fragment_orders(tier):
         r, p = rsmi.split(">>")
         for invert in (False, True):
             n = (p if invert else r).count(".") + 1
-            if n < 3 or (n > 4 and tier == "quick"):
+            if n < 3:
                 continue
             perms = list(itertools.permutations(range(n))) if n <= 4 else None
             if perms is None:
